@@ -10,6 +10,7 @@ import (
 	"fmt"
 	"io"
 	"sort"
+	"strings"
 	"testing"
 
 	"github.com/fluhus/biostuff/formats/fasta"
@@ -291,7 +292,15 @@ func checkWriteFaults(c C07Case, o *Obs) error {
 	total := healthy.Len()
 	o.NT = total >= 2
 	runs := 0
+	// every number of accepted bytes; for records of several KB: the first and last hundred, the
+	// neighbourhood of every multiple of 512 and every 41st in between
+	var limits []int
 	for k := 0; k <= total+1; k++ {
+		if total <= 1500 || k <= 100 || k >= total-100 || k%41 == 0 || (k+2)%512 <= 4 {
+			limits = append(limits, k)
+		}
+	}
+	for _, k := range limits {
 		for _, short := range []bool{false, true} {
 			runs++
 			lw := &fault.LimitedWriter{Limit: k, Short: short}
@@ -410,6 +419,24 @@ func exhaustiveC07(thorough bool, emit func(C07Case) bool) {
 		b := baseBedRec(n)
 		if !emit(C07Case{Kind: "write", Format: "bed", Bed: &b}) {
 			return
+		}
+	}
+	// records of several KB (longer than any block a writer may collect its output in)
+	for i, n := range []int{4000, 4100, 5000, 9000, 20000} {
+		lfa := FastaRec{Name: gen.B("chr" + strings.Repeat("x", i*20)), Seq: gen.Lit(realDNA(n, i, true, true))}
+		lfq := FastqRec{Name: gen.B("read"), Seq: gen.Lit(realDNA(n, i, true, false)), Quals: gen.Lit(bytes.Repeat([]byte("I#~5"), n/4+1)[:n])}
+		lsam := baseSamRec
+		lsam.Seq, lsam.Qual = gen.B(realDNA(n, i, false, false)), gen.B(strings.Repeat("F", n))
+		lbed := baseBedRec(4)
+		lbed.Name = gen.B(strings.Repeat("feature_", n/8))
+		ltr := gen.TreeSpec{Parents: []int{0, 0, 1, 1}, Names: []gen.B{gen.B(strings.Repeat("r", n/3)), gen.B(strings.Repeat("a b", n/9)), gen.B(strings.Repeat("c", n/3))}, Dists: []gen.F{0, 1.5}}
+		for _, c := range []C07Case{
+			{Kind: "write", Format: "fasta", Fasta: &lfa}, {Kind: "write", Format: "fastq", Fastq: &lfq},
+			{Kind: "write", Format: "sam", Sam: &lsam}, {Kind: "write", Format: "bed", Bed: &lbed}, {Kind: "write", Format: "newick", Tree: &ltr},
+		} {
+			if !emit(c) {
+				return
+			}
 		}
 	}
 }
